@@ -173,6 +173,35 @@ def syntactic_dispatches(src, marker, families, lazy, what, after=None):
     return found, why
 
 
+PRIOR_DEFS = {"preamp": ("WireMaps", "preamp_arms"), "channel": ("WireMaps", "channel_arms"), "pwb": ("PadMaps", "pwb_arms")}
+
+
+def pinned_prior(families):
+    """{family: run -> table index | None} from the pinned configuration (pinned/*.v.gz); used only where a dispatch
+    cannot be observed (see dispatchx.reconstruct).  Table indices of the pinned text = positions in the lists of
+    tables, which are ordered by the run number in the constants' names; an index beyond the current list is dropped."""
+    import gzip
+    out = {}
+    for fam in families:
+        if fam not in PRIOR_DEFS:
+            return None
+        fname, dname = PRIOR_DEFS[fam]
+        try:
+            text = gzip.open(os.path.join(os.path.dirname(GEN), "..", "pinned", fname + ".v.gz"), "rt").read()
+        except (OSError, EOFError, UnicodeDecodeError):
+            return None
+        arms = dx.parse_coq_arms(text, dname)
+        if arms is None:
+            return None
+        n = len(families[fam])
+
+        def f(run, arms=arms, n=n):
+            v = dx.apply_arms(arms, run)
+            return v if v is None or v < n else None
+        out[fam] = f
+    return out
+
+
 def settle(what, src, families, found, why, helper_ok, helper, answers_of, predict, notes):
     """complete `found` by probing the implementation when a dispatch could not be read, or check the table-building
     helper of unknown shape against the implementation; appends the explanatory comments to notes"""
@@ -193,7 +222,8 @@ def settle(what, src, families, found, why, helper_ok, helper, answers_of, predi
         return cache[key] == answers[r]
     nomap = predict({f: None for f in families})
     rec = dx.reconstruct(what, runs, {f: list(range(len(families[f]))) for f in families}, found, matches,
-                         lambda r: answers[r] == nomap, more=lambda rs: answers.update(answers_of(rs)))
+                         lambda r: answers[r] == nomap, more=lambda rs: answers.update(answers_of(rs)),
+                         prior=pinned_prior(families))
     if missing:
         notes.append(PROBE_NOTE % (dx.FALLBACK_MARK, what + " " + ", ".join(missing), dx.comment_safe("; ".join(why)),
                                    len(runs)))
